@@ -76,6 +76,7 @@ func init() {
 	properties["C12"] = &property{ID: "C12", Level: "model_checking", Kinds: []string{"claim"},
 		Harnesses: []harness{
 			{Name: "gsxC12BadCond", Pkg: "checkers", Solver: "z3", Quick: map[string]int{"paths": 4000, "wall_s": 60}, NoValidate: true, Tolerant: true, ReplayFn: replayC12BadCond, MustReach: []string{"always false"}},
+			{Name: "gsxC12DupSubExpr", Pkg: "checkers", Solver: "z3", Quick: map[string]int{"paths": 4000, "wall_s": 60}, NoValidate: true, ReplayFn: replayDupSubExpr, MustReach: []string{"visited", "reported"}},
 		},
 		Assumptions: []string{"badCond: two comparisons of one operand (identifier or impure call) against integer constants in [-8,8]; an impure call yields an independent value per evaluation"}}
 	properties["C04"] = &property{ID: "C04", Level: "model_checking", Extra: runC04,
